@@ -19,6 +19,8 @@ package tinder
 //@   ensures [C16.tinder.topic] tuOK(result) && has(c.topics, topic) && c.topics[topic] == result && pcOK(c)
 //@     && result.notify.L != addr(c.muCache) && result.notify.L != addr(c.muPeers)
 //@   ensures lockstate(addr(c.muPeers)) == old(lockstate(addr(c.muPeers)))
+//@   ensures [C16.tinder.topic.same] old(has(c.topics, topic)) ==> result == old(c.topics[topic])
+//@   ensures [C16.tinder.topic.new] !old(has(c.topics, topic)) ==> fresh(result) && fresh(result.notify) && fresh(result.peerUpdate) && fresh(result.notify.L)
 
 //@ extern berty.tech/weshnet/v2/pkg/tinder.mergeAddrInfos(prev, next) (r)
 //@   noeffect
@@ -27,11 +29,15 @@ package tinder
 //@   for C16
 //@   requires pcOK(c) && unlocked(addr(c.muPeers))
 //@   at (*Notify).Broadcast requires [C16.broadcast-under-L] locked(n.L)
+//@   modifies lockstate(addr(c.muPeers)), mapof(c.topics), lockstate(addr(c.muCache)), mapof(c.peers)
+//@   modifies lockstate(c.topics[topic].notify.L), mapof(c.topics[topic].peerUpdate), c.topics[topic].notify.cc, lockstate(addr(c.topics[topic].notify.mu)), bcasts(c.topics[topic].notify)
 //@   ensures [C16.tinder.update.unlock] unlocked(addr(c.muPeers)) && pcOK(c)
 
 //@ func (*peersCache).WaitForPeerUpdate
 //@   for C16
 //@   requires pcOK(c) && ctx != nil && current != nil
+//@   modifies mapof(c.topics), lockstate(addr(c.muCache)), mapof(current), cancelled(ctx)
+//@   modifies lockstate(c.topics[topic].notify.L), c.topics[topic].notify.cc, lockstate(addr(c.topics[topic].notify.mu)), waitreg(c.topics[topic].notify)
 //@   ensures [C16.tinder.wait] (ok ==> len(updated) > 0) && (!ok ==> cancelled(ctx))
 //@   ensures [C16.tinder.wait.unlock] has(c.topics, topic) && unlocked(c.topics[topic].notify.L) && unlocked(addr(c.topics[topic].notify.mu))
 //@   loop 0 invariant tuOK2(tu) && locked(tu.notify.L) && (!ok ==> cancelled(ctx)) && has(c.topics, topic) && c.topics[topic] == tu
@@ -48,4 +54,5 @@ package tinder
 //@ func (*peersCache).GetPeersForTopics
 //@   for C16
 //@   requires pcOK(c) && unlocked(addr(c.muPeers))
+//@   modifies lockstate(addr(c.muPeers)), mapof(c.topics), lockstate(addr(c.muCache)), lockstate(c.topics[topic].notify.L)
 //@   ensures [C16.tinder.getpeers.unlock] unlocked(addr(c.muPeers)) && has(c.topics, topic) && unlocked(c.topics[topic].notify.L)
